@@ -82,6 +82,36 @@ theorem decode_list_with_total {α : Type} (elem : Dec → Res α)
   | ok a d => rfl
   | err e d => rfl
 
+/-- `flat::decode::<T>(bytes)` (`mod.rs`: decode a `T`, then the filler) never panics, for every
+    decodable `T` and every byte string -/
+theorem decode_top_total (k : Kind) (bytes : List Byte) : (decodeTop k bytes).isPanic = false :=
+  PallasVerif.Flat.decode_top_total k bytes
+
+/-- The model computes `usize` / `isize` / `i64` additions and the one multiplication of
+    `decoder.rs` in `Nat` / `Int`. This lists every such site and shows that, in any state the
+    decoder can reach (`Dec.Inv`) on a buffer below 2^60 bytes, the exact value lies inside the
+    machine type, so the Rust computes the same number and its overflow check does not fire.
+    (`blkLen ≤ 255` is a byte; `n ≤ 8` is checked by `bits8` before any arithmetic.) -/
+theorem arith_sites_in_range (d : Dec) (h : d.Inv) (hlen : d.buf.length < 2 ^ 60) (n blkLen : Nat)
+    (hn : n ≤ 8) (hb : blkLen ≤ 255) :
+    -- increment_buffer_by_bit: `self.pos += 1` (taken only when `pos < len`), `self.used_bits += 1`
+    (d.pos < d.buf.length → d.pos + 1 < 2 ^ 64) ∧ d.used + 1 < 2 ^ 63 ∧
+    -- ensure_bytes: `required as isize`, `len as isize - pos as isize`
+    ((blkLen + 1 : Int) < 2 ^ 63 ∧ -(2 ^ 63 : Int) ≤ (d.buf.length : Int) - d.pos ∧ (d.buf.length : Int) - d.pos < 2 ^ 63) ∧
+    -- ensure_bits: `(len as isize - pos as isize) * 8 - used_bits as isize`
+    (-(2 ^ 63 : Int) ≤ ((d.buf.length : Int) - d.pos) * 8 - d.used ∧ ((d.buf.length : Int) - d.pos) * 8 < 2 ^ 63) ∧
+    -- drop_bits: `num_bits as i64 + used_bits`, `pos += all_used_bits as usize / 8` (after ensure_bits)
+    (n + d.used < 2 ^ 63 ∧ d.pos + (n + d.used) / 8 < 2 ^ 64) ∧
+    -- bits8: `self.pos + 1`, `unused_bits + leading_zeroes`
+    (d.pos + 1 < 2 ^ 64 ∧ (8 - d.used) + (8 - n) < 2 ^ 64) ∧
+    -- byte_array: `blk_len as usize + 1`, `self.pos + blk_len as usize`, `self.pos += …`, `self.pos += 1`
+    (blkLen + 1 < 2 ^ 64 ∧ (d.pos + blkLen + 1 ≤ d.buf.length → d.pos + blkLen + 1 < 2 ^ 64)) ∧
+    -- word: `shl += 7` is an explicit trap site of the model (never reached: `wordLoop_safe`)
+    True := by
+  obtain ⟨hu, hc⟩ := h
+  simp only [Dec.cursor] at hc
+  refine ⟨?_, ?_, ⟨?_, ?_, ?_⟩, ⟨?_, ?_⟩, ⟨?_, ?_⟩, ⟨?_, ?_⟩, ⟨?_, ?_⟩, trivial⟩ <;> omega
+
 /-! ## The unrepaired arms panic at the recorded witnesses -/
 
 /-- #1 `Decoder::new(&[]).bool()` indexed `buffer[0]` -/
